@@ -232,13 +232,21 @@ theorem prDo_eq_F (hM : M.Compatible G) (hG : G.WF) (σ : Val) (dos ev : List (N
 
 /-! ### probabilities whose variables live in one world -/
 
-/-- all variables carry the same un-starred subscripts `w` and are not starred themselves -/
-def InWorld (w : List Iv) (vs : List Var) : Prop := ∀ v ∈ vs, v.ivs = w ∧ v.star = none
+/-- all variables carry the same un-starred subscripts `w` and are not starred (`+X`) themselves; the spelling `-X`
+of a variable in event position reads the same value as `X` -/
+def InWorld (w : List Iv) (vs : List Var) : Prop := ∀ v ∈ vs, v.ivs = w ∧ v.star ≠ some true
 
-theorem atom_inWorld (σ σ' : Val) {w : List Iv} {v : Var} (h : v.ivs = w ∧ v.star = none) :
+theorem atom_inWorld (σ σ' : Val) {w : List Iv} {v : Var} (h : v.ivs = w ∧ v.star ≠ some true) :
     Var.atom σ σ' v = ⟨v.name, w.map (Iv.eval σ σ'), σ v.name⟩ := by
   unfold Var.atom Var.value
-  rw [h.1, h.2]
+  rw [h.1]
+  have h2 := h.2
+  cases hs : v.star with
+  | none => rfl
+  | some b =>
+    cases b with
+    | true => exact absurd hs h2
+    | false => rfl
 
 theorem prAtoms_world (hM : M.Compatible G) (hG : G.WF) (σ σ' : Val) (w : List Iv)
     (hw : ∀ i ∈ w, i.star = false) (vs : List Var) (hne : vs ≠ []) (hvs : InWorld w vs) :
